@@ -87,13 +87,17 @@ type c20Tier struct {
 	hopRate     int // hop contexts: one per (location, interpreter configuration) at hopRate/7
 	seqRate     int // sequence contexts: one per (location, interpreter configuration) at seqRate/7
 	strRate     int // string-sourced contexts: one per (location, interpreter configuration) at strRate/14
+	// near layouts (appended after the layouts*chunks cases above): the root's
+	// path components have near-equal twins outside the root
+	nearLayouts int
+	nearChunks  int
 }
 
 func c20TierOf(tier string) c20Tier {
 	if tier == "thorough" {
-		return c20Tier{layouts: 32, chunks: 96, depth: 3, deepLayouts: 6, nrand: 6000, rate: 4, hopRate: 5, seqRate: 4, strRate: 5}
+		return c20Tier{layouts: 32, chunks: 96, depth: 3, deepLayouts: 6, nrand: 6000, rate: 4, hopRate: 5, seqRate: 4, strRate: 5, nearLayouts: 12, nearChunks: 16}
 	}
-	return c20Tier{layouts: 8, chunks: 48, depth: 3, deepLayouts: 0, nrand: 1500, rate: 2, hopRate: 3, seqRate: 2, strRate: 3}
+	return c20Tier{layouts: 8, chunks: 48, depth: 3, deepLayouts: 0, nrand: 1500, rate: 2, hopRate: 3, seqRate: 2, strRate: 3, nearLayouts: 3, nearChunks: 16}
 }
 
 func c20Cases(tier string) int {
@@ -104,7 +108,21 @@ func c20Cases(tier string) int {
 		return 0 // debugging aid: only the driver phases (the run is then inconclusive by the coverage floor)
 	}
 	t := c20TierOf(tier)
-	return t.layouts * t.chunks
+	return t.layouts*t.chunks + t.nearLayouts*t.nearChunks
+}
+
+// c20NearLayoutBase is the layout index of the first near layout (layout
+// indices select the PRNG streams of a layout and its location list).
+const c20NearLayoutBase = 1000
+
+// c20CaseOf maps a case index to (layout index, chunk, chunks of that layout):
+// the layouts*chunks cases of the catalogue and generated layouts first, then
+// the near layouts.
+func c20CaseOf(tp c20Tier, idx int) (layoutIdx, chunk, chunks int) {
+	if n := tp.layouts * tp.chunks; idx >= n {
+		return c20NearLayoutBase + (idx-n)/tp.nearChunks, (idx - n) % tp.nearChunks, tp.nearChunks
+	}
+	return idx / tp.chunks, idx % tp.chunks, tp.chunks
 }
 
 // ---------------------------------------------------------------------------
@@ -510,7 +528,16 @@ func c20Shape(l *sandbox.Layout, lb *c20Lib, ex c20Expect, served *fsmodel.Node,
 		return "wrong-file"
 	}
 	if served != nil && served.Under(root) {
-		return "wrong-file-inside-root"
+		return "wrong-file-inside-root" + c20NearInside(ex, served)
+	}
+	if served != nil && (lb.family != "dirfs" || c20JudgeBareDirFS) {
+		// the class of the input by construction: the served file lies below a
+		// directory whose path is the root's except for near-equal components
+		// (a bare os.DirFS gets there through links only, which is not judged:
+		// its escapes keep their symlink-* shapes)
+		if cls, pos := c20NearOutside(root, served); cls != "" {
+			return "near-equal-name-outside:" + cls + ":" + pos
+		}
 	}
 	for _, r := range []fsmodel.Res{ex.lex, ex.phy} {
 		for i, ls := range r.Links {
@@ -681,6 +708,9 @@ type c20Sandbox struct {
 // layout: every fourth layout is generated, and all are once the hand-written
 // variants are used up.
 func c20Variant(layoutIdx int) int {
+	if layoutIdx >= c20NearLayoutBase {
+		return sandbox.NearBase + layoutIdx - c20NearLayoutBase
+	}
 	f := layoutIdx - layoutIdx/4
 	if layoutIdx%4 == 3 || f >= sandbox.NFixed {
 		return sandbox.NFixed + layoutIdx
@@ -698,6 +728,13 @@ func c20Open(rngLayout, rngLocs *fw.RNG, layoutIdx int, tp c20Tier) (*c20Sandbox
 		os.RemoveAll(base)
 	}
 	l := sandbox.Build(base, c20Variant(layoutIdx), rngLayout)
+	if l.Near {
+		if why := c20NameInsensitive(base); why != "" {
+			cleanup()
+			c20NearFSNote = why
+			return nil, nil, errC20NearNotApplicable
+		}
+	}
 	if err := l.Tree.Materialize(); err != nil {
 		cleanup()
 		return nil, nil, err
@@ -728,8 +765,13 @@ func c20Run(w *fw.W, idx int) {
 		return
 	}
 	tp := c20TierOf(w.Tier)
-	layoutIdx, chunk := idx/tp.chunks, idx%tp.chunks
+	layoutIdx, chunk, chunks := c20CaseOf(tp, idx)
 	sb, done, err := c20Open(w.RNG(layoutIdx, "layout"), w.RNG(layoutIdx, "locs"), layoutIdx, tp)
+	if err == errC20NearNotApplicable {
+		w.Rec.Count("nearname_cases_not_applicable", 1)
+		w.SetAdd("nearname_sandbox_fs", "not applicable: "+c20NearFSNote)
+		return
+	}
 	if err != nil {
 		w.Inconclusive("sandbox setup failed: " + err.Error())
 		return
@@ -750,8 +792,11 @@ func c20Run(w *fw.W, idx int) {
 	}
 	// replay prints the layout and the violations; C20_TRACE=1 adds one line per load
 	ck := &c20Checker{w: w, rec: w.Rec, st: st, l: l, verbose: w.Verbose && os.Getenv("C20_TRACE") != ""}
+	if l.Near {
+		c20NearEvidence(w, l)
+	}
 	var strRNG *fw.RNG
-	for i := chunk; i < len(sb.locs); i += tp.chunks {
+	for i := chunk; i < len(sb.locs); i += chunks {
 		loc := sb.locs[i]
 		ck.validateModel(loc)
 		for _, lb := range sb.libs {
@@ -819,7 +864,7 @@ func c20Run(w *fw.W, idx int) {
 	// a change of the configuration / the environment / the tree, loads again.
 	// It runs last because it mutates the sandbox.
 	var chunkLocs []string
-	for i := chunk; i < len(sb.locs); i += tp.chunks {
+	for i := chunk; i < len(sb.locs); i += chunks {
 		chunkLocs = append(chunkLocs, sb.locs[i])
 	}
 	c20RunHistory(w, st, sb, idx, layoutIdx, chunk, chunkLocs, ck.verbose)
@@ -1032,6 +1077,9 @@ func (ck *c20Checker) cover(lb *c20Lib, ld *sandbox.Loader, entry, loc string, e
 		ck.classFor = ex.full + "\x00" + lb.label
 	}
 	class, trivial := ck.class, ck.trivial
+	if ck.l.Near {
+		ck.nearCover(lb, loc, ex, outcome)
+	}
 	if trivial {
 		ck.rec.Count("trivial_loads", 1)
 		return
@@ -1118,7 +1166,7 @@ func (ck *c20Checker) direct(lb *c20Lib, ld *sandbox.Loader, loc string, ex c20E
 	served := ck.l.Tree.ByContent[string(data)]
 	ok := ck.judgeServed(lb, ld, entry, loc, ex, served, "returned the bytes of")
 	if ok && ex.mustServe != nil && served != ex.mustServe {
-		ck.report(lb.family+":wrong-file-inside-root", fmt.Sprintf("%s %s: %q served %s, expected %s", lb.label, entry, loc, served.Path(), ex.mustServe.Path()),
+		ck.report(lb.family+":wrong-file-inside-root"+c20NearInside(ex, served), fmt.Sprintf("%s %s: %q served %s, expected %s", lb.label, entry, loc, served.Path(), ex.mustServe.Path()),
 			func() string { return ck.describe(lb, ld, entry, loc, ex) })
 	}
 	// trueloc must identify the served file (counted, not judged: not in the statement)
@@ -1470,7 +1518,7 @@ func (ck *c20Checker) judgeRun(lb *c20Lib, ld *sandbox.Loader, entry, loc string
 		}
 	}
 	if ok && ex.mustServe != nil && rest[0] != ex.mustServe {
-		ck.report(lb.family+":wrong-file-inside-root", fmt.Sprintf("%s %s: %q evaluated %s, expected %s", lb.label, entry, loc, rest[0].Path(), ex.mustServe.Path()),
+		ck.report(lb.family+":wrong-file-inside-root"+c20NearInside(ex, rest[0]), fmt.Sprintf("%s %s: %q evaluated %s, expected %s", lb.label, entry, loc, rest[0].Path(), ex.mustServe.Path()),
 			func() string { return ck.describe(lb, ld, entry, loc, ex) })
 	}
 	if ok && !tr.IsErr && !isSeq && strings.HasPrefix(rest[0].Content, "(verif:probe '"+rest[0].Marker+") \"") && tr.Value != `"`+rest[0].Marker+`"` {
